@@ -415,9 +415,9 @@ func (g Gateway) Get(ctx context.Context, in *hydrapb.GetRequest) (*hydrapb.GetR
 				if err != nil {
 					// the treasure does not exist
 					t.IsExist = false // override the default value
-				} else {
-					// convert the treasure from the hydra to the protobuf format
-					treasureToKeyValuePair(treasureInterface, t)
+				} else if !liveTreasureToKeyValuePair(treasureInterface, t) {
+					// deleted since it was looked up
+					t.IsExist = false
 				}
 
 				// add the treasure to the response
@@ -476,7 +476,9 @@ func (g Gateway) GetAll(ctx context.Context, in *hydrapb.GetAllRequest) (*hydrap
 	var response []*hydrapb.Treasure
 	for _, treasureInterface := range treasures {
 		t := &hydrapb.Treasure{}
-		treasureToKeyValuePair(treasureInterface, t)
+		if !liveTreasureToKeyValuePair(treasureInterface, t) {
+			continue // deleted since the list was taken
+		}
 		response = append(response, t)
 	}
 
@@ -541,7 +543,9 @@ func (g Gateway) GetByIndex(ctx context.Context, in *hydrapb.GetByIndexRequest) 
 			response = append(response, &hydrapb.Treasure{Key: treasureInterface.GetKey(), IsExist: true})
 		} else {
 			t := &hydrapb.Treasure{}
-			treasureToKeyValuePair(treasureInterface, t)
+			if !liveTreasureToKeyValuePair(treasureInterface, t) {
+				continue // deleted since the list was taken
+			}
 			response = append(response, t)
 		}
 	}
@@ -619,7 +623,9 @@ func (g Gateway) GetByKeys(ctx context.Context, in *hydrapb.GetByKeysRequest) (*
 			response = append(response, &hydrapb.Treasure{Key: key, IsExist: true})
 		} else {
 			t := &hydrapb.Treasure{}
-			treasureToKeyValuePair(treasureInterface, t)
+			if !liveTreasureToKeyValuePair(treasureInterface, t) {
+				continue // deleted since the list was taken
+			}
 			response = append(response, t)
 		}
 	}
@@ -742,7 +748,9 @@ func (g Gateway) GetByIndexStream(in *hydrapb.GetByIndexStreamRequest, stream hy
 			resp.Treasure = &hydrapb.Treasure{Key: treasureInterface.GetKey(), IsExist: true}
 		} else {
 			t := &hydrapb.Treasure{}
-			treasureToKeyValuePair(treasureInterface, t)
+			if !liveTreasureToKeyValuePair(treasureInterface, t) {
+				continue // deleted since the list was taken
+			}
 			resp.Treasure = t
 		}
 
@@ -879,7 +887,9 @@ func (g Gateway) GetByIndexStreamFromMany(in *hydrapb.GetByIndexStreamFromManyRe
 					resp.Treasure = &hydrapb.Treasure{Key: treasureInterface.GetKey(), IsExist: true}
 				} else {
 					t := &hydrapb.Treasure{}
-					treasureToKeyValuePair(treasureInterface, t)
+					if !liveTreasureToKeyValuePair(treasureInterface, t) {
+						continue // deleted since the list was taken
+					}
 					resp.Treasure = t
 				}
 
@@ -1019,8 +1029,8 @@ func (g Gateway) GetStream(in *hydrapb.GetStreamRequest, stream hydrapb.Hydraide
 					}
 					if missingKeys[key] {
 						t.IsExist = false
-					} else {
-						treasureToKeyValuePair(nativeTreasures[key], t)
+					} else if !liveTreasureToKeyValuePair(nativeTreasures[key], t) {
+						t.IsExist = false // deleted since it was looked up
 					}
 					treasureList = append(treasureList, t)
 				}
@@ -2813,7 +2823,29 @@ func keyValuesToTreasure(keyValuePair *hydrapb.KeyValuePair, treasureInterface t
 	}
 }
 
-// treasureToKeyValuePair converts the treasure content from the hydra to the protobuf format
+// liveTreasureToKeyValuePair converts a record that concurrent requests may be
+// writing. A writer holds the record's guard from the first field it changes
+// until its save is done, so a copy taken under the guard is one committed
+// version of the record: the value and every metadata field belong together.
+// Converting the shared object field by field instead could return the value
+// of one version with the metadata of another, or a record another request
+// has already deleted and wiped. It reports false, leaving t as it is, when
+// the record has been deleted since the caller looked it up.
+func liveTreasureToKeyValuePair(treasureInterface treasure.Treasure, t *hydrapb.Treasure) bool {
+	guardID := treasureInterface.StartTreasureGuard(true)
+	if treasureInterface.GetDeletedAt() != 0 {
+		treasureInterface.ReleaseTreasureGuard(guardID)
+		return false
+	}
+	snapshot := treasureInterface.Clone(guardID)
+	treasureInterface.ReleaseTreasureGuard(guardID)
+	treasureToKeyValuePair(snapshot, t)
+	return true
+}
+
+// treasureToKeyValuePair converts the treasure content from the hydra to the protobuf format.
+// The treasure must not be changing meanwhile: a clone, or a record whose guard the caller holds
+// (see liveTreasureToKeyValuePair for records that are shared with other requests).
 func treasureToKeyValuePair(treasureInterface treasure.Treasure, t *hydrapb.Treasure) {
 
 	// Set the key of the treasure
